@@ -69,6 +69,11 @@ class VwDictSub(dict):
     pass
 class VwGen(typing.Generic[typing.TypeVar("VwT0")]):
     pass
+class VwProto(typing.Protocol):
+    def area(self) -> float: ...
+class VwGenOuter:
+    class VwGenInner(typing.Generic[typing.TypeVar("VwT1")]):
+        pass
 class VwUnhashable:
     __hash__ = None
 class VwAbstract(abc.ABC):
@@ -155,7 +160,7 @@ CLASSY = [
     "collections.defaultdict[str, int]", "typing.DefaultDict[str, int]", "collections.OrderedDict[str, int]", "typing.OrderedDict[str, int]",
     "collections.abc.MutableSequence[int]", "typing.MutableSequence[int]",
     "VwE", "VwIE", "VwSE", "VwDC", "VwFDC", "VwSubDC", "VwNT", "VwTD", "VwPlain", "VwNoHints", "VwStrSub", "VwListSub", "VwDictSub", "VwGen",
-    "VwGen[int]", "VwUnhashable", "VwAbstract",
+    "VwGen[int]", "VwUnhashable", "VwAbstract", "VwProto", "VwGenOuter.VwGenInner",
     "VwNInt", "VwNStr", "VwNDate", "VwNList", "VwNDict", "VwNNInt", "VwNDC", "VwNPath", "VwNBytes", "VwNFloat",
     "VwAInt", "VwAList", "VwADict", "VwADate",
     "Literal", "Final", "Union", "Optional", "ClassVar", "VwTDX", "VwTDXChild",
@@ -277,7 +282,17 @@ EXACT_MODEL = {
     "isoptionaltype": lambda o: _is_optional(o),
     "isclassvartype": lambda o: (typing.get_origin(o) or o) is typing.ClassVar,
     "isfinal": lambda o: (typing.get_origin(o) or o) is typing.Final,
+    # for a class (not a typing form) the runtime's own answer
+    "qualname": lambda o: _class_names(o)[0],
+    "name": lambda o: _class_names(o)[1],
 }
+
+
+def _class_names(o):
+    if not inspect.isclass(o) or typing.get_origin(o) is not None or o.__module__ in ("typing", "typing_extensions"):
+        raise TypeError("not a plain class")
+    q = o.__qualname__.replace("<locals>.", "")
+    return q, q.rsplit(".")[-1]
 
 
 # accessors whose answer legitimately differs between spellings of one union (str-based)
